@@ -325,20 +325,17 @@ impl Cfg {
             }
             visited.insert(Rc::clone(&next));
             if next.gen_reg().contains(&item) {
-                // find the use
-                let regs = next.reads_from();
-                let mut it = None;
-                for reg in regs {
-                    if reg == item {
-                        it = Some(reg);
-                        break;
-                    }
-                }
-                if let Some(reg) = it {
+                // This path ends at its first read of the register; the other
+                // paths go on, each to its own first read
+                if let Some(reg) = next.reads_from().into_iter().find(|reg| *reg == item) {
                     ranges.push(reg);
-                    break;
                 }
-                break;
+                continue;
+            }
+            // Behind a new value for the register, reads are not reads of the
+            // value in question
+            if next.kill_reg().contains(&item) {
+                continue;
             }
 
             queue.extend(in_source_order(&next.nexts()));
